@@ -60,4 +60,10 @@ CHECKS = {
                  "every Marshal, overwrites input buffers (scribble) after Unmarshal, re-reads every live buffer and variable after every call, and additionally reports "
                  "whether memory reachable from a decoded value (incl. spare capacity) overlaps the input buffer or the returned bytes overlap the value; TLC judges all of it.",
          "note": TB + " The overlap observer walks strings, slices (with capacity), pointers, maps and structs through reflect/unsafe; it is an observation on the executions the model drives."},
+ "C04": {"technique": "TLC-enumerated input space + design invariants of a total decoder (progress, bounded skip); real decoders observed on every enumerated and mutated input, judged by TraceHostile",
+         "text": "TLC enumerates every byte string up to length 3 (quick) / 4-5 (thorough) over a representative alphabet, checks on the model that the schema-less walk "
+                 "makes progress and never reports more than there is, and emits strings and 30 target types; every (string, target, Unmarshal | Descriptor.Read) "
+                 "combination plus byte-wise mutations of valid encodings of random types is executed in isolated workers (4 GiB address space, 10 s budget) and TLC "
+                 "judges each outcome: value or error with a message, no panic / fault / timeout, input untouched, allocation within 1 MiB + 4 KiB per input byte.",
+         "note": "Real-code observation on model-generated inputs (DESIGN.md section 8): an out-of-bounds read through unsafe that neither faults nor changes the outcome is invisible. " + TB},
 }
